@@ -1,17 +1,20 @@
+import Gallia.Model.ParseQuote
+import Gallia.Model.Config
 /-
   C20 — target URIs, host:port strings, integer notation and range expressions.
 
   This file is the *oracle* the property names: what a user-written integer, range expression, host:port string
-  or target URI denotes.  Strings are `List Char` (`Str`); the alphabet is ASCII (non-ASCII digits / spaces that
-  Python's `int()` additionally accepts are outside the model and never generated by the harness).
+  or target URI denotes.  Strings are `List Char` (`Str`, Unicode scalar values).  `int()` reads a text after
+  mapping every non-ASCII Unicode space to ' ' and every Unicode decimal digit to its ASCII digit (`normChar`, the
+  tables `uniSpaces` / `decZeros` are regenerated from `unicodedata` and checked against these copies); `str.isspace /
+  strip / split` additionally know U+001C..U+001F (`isSpaceStr`).  Query parameters are percent-encoded
+  (`Model/ParseQuote.lean`).
 
   Real code tied to it: `gallia.utils.auto_int / unravel / unravel_2d`, `gallia.command.config._process_ranges`,
   `gallia.net.split_host_port / join_host_port`, `gallia.transports.base.TargetURI` (`from_parts`, `hostname`, `port`,
-  `qs_flat`), `DoIPConfig / HSFZConfig / ISOTPConfig`.
+  `path`, `qs_flat`), `DoIPConfig / HSFZConfig / ISOTPConfig`; every transport's `connect()` is in `Model/ParseTransport.lean`.
 -/
 namespace Gallia.Parse
-
-abbrev Str := List Char
 
 /-! ## integers: `int(s, 0)` -/
 
@@ -67,10 +70,55 @@ def parseMag (cs : Str) : Option Nat :=
 
 def applySign (neg : Bool) (n : Nat) : Int := if neg then -(n : Int) else (n : Int)
 
-/-- `int(s, 0)` -/
-def autoIntL (s : Str) : Option Int :=
+/-- `int(s, 0)` on a text whose non-ASCII characters have been normalised -/
+def autoIntA (s : Str) : Option Int :=
   let (neg, m) := splitSign (trim s)
   (parseMag m).map (applySign neg)
+
+/-! ### the Unicode edge of `int()` and of `str.isspace / strip / split`
+
+  `PyLong_FromUnicodeObject` first runs `_PyUnicode_TransformDecimalAndSpaceToASCII`: every character < 128 is kept, every
+  other character with `Py_UNICODE_ISSPACE` becomes ' ', every other character with a decimal value becomes that ASCII digit
+  (anything else ends the literal with an invalid character).  So U+001C..U+001F, which `str.isspace()` accepts, are *not*
+  skipped by `int()`, while U+0085, U+00A0, U+2028 ... are. -/
+
+/-- non-ASCII code points with `str.isspace()` -/
+def uniSpaces : List Nat :=
+  [133, 160, 5760, 8192, 8193, 8194, 8195, 8196, 8197, 8198, 8199, 8200, 8201, 8202, 8232, 8233, 8239, 8287, 12288]
+
+def isUniSpace (c : Char) : Bool := uniSpaces.contains c.toNat
+
+/-- what `int()` skips around a literal -/
+def isWsInt (c : Char) : Bool := isWs c || isUniSpace c
+
+/-- `str.isspace()` of one character (= what `str.strip()` strips and `str.split()` splits at) -/
+def isSpaceStr (c : Char) : Bool := isWs c || (28 ≤ c.toNat && c.toNat ≤ 31) || isUniSpace c
+
+/-- the zero of every block of ten Unicode decimal digits -/
+def decZeros : List Nat :=
+  [48, 1632, 1776, 1984, 2406, 2534, 2662, 2790, 2918, 3046, 3174, 3302, 3430, 3558, 3664, 3792, 3872, 4160, 4240, 6112,
+   6160, 6470, 6608, 6784, 6800, 6992, 7088, 7232, 7248, 42528, 43216, 43264, 43472, 43504, 43600, 44016, 65296, 66720,
+   68912, 69734, 69872, 69942, 70096, 70384, 70736, 70864, 71248, 71360, 71472, 71904, 72016, 72784, 73040, 73120, 73552,
+   92768, 92864, 93008, 120782, 120792, 120802, 120812, 120822, 123200, 123632, 124144, 125264, 130032]
+
+/-- `unicodedata.decimal(c)` -/
+def uniDigit (c : Char) : Option Nat :=
+  (decZeros.find? fun z => z ≤ c.toNat && c.toNat < z + 10).map fun z => c.toNat - z
+
+/-- `_PyUnicode_TransformDecimalAndSpaceToASCII`, per character -/
+def normChar (c : Char) : Char :=
+  if c.toNat < 128 then c
+  else if isUniSpace c then ' '
+  else match uniDigit c with
+    | some d => Char.ofNat (48 + d)
+    | none => c
+
+/-- `int(s, 0)` = `gallia.utils.auto_int` -/
+def autoIntL (s : Str) : Option Int := autoIntA (s.map normChar)
+
+/-- the same literal written with the digits of another script (`z0` = the script's digit zero) -/
+def toScript (z0 : Nat) (s : Str) : Str :=
+  s.map fun c => if 48 ≤ c.toNat ∧ c.toNat ≤ 57 then Char.ofNat (z0 + (c.toNat - 48)) else c
 
 def autoInt (s : String) : Option Int := autoIntL s.toList
 
@@ -107,8 +155,9 @@ structure Spelling where
   us : List Bool := []      -- digit grouping underscores
   wsL : Str := []           -- surrounding whitespace
   wsR : Str := []
+  deriving DecidableEq, Repr
 
-def Spelling.WF (sp : Spelling) : Prop := (∀ c ∈ sp.wsL, isWs c = true) ∧ (∀ c ∈ sp.wsR, isWs c = true)
+def Spelling.WF (sp : Spelling) : Prop := (∀ c ∈ sp.wsL, isWsInt c = true) ∧ (∀ c ∈ sp.wsR, isWsInt c = true)
 
 def prefixOf (b : Base) (upper : Bool) : Str :=
   match b with
@@ -197,7 +246,7 @@ def parseElem (s : Str) : Option Elem :=
   else (parseNat s).map .one
 
 def parseElems (s : Str) : Option (List Elem) :=
-  if s.all isWs then some [] else mapOpt parseElem (splitOnC ',' s)
+  if s.all isSpaceStr then some [] else mapOpt parseElem (splitOnC ',' s)
 
 /-- `gallia.utils.unravel` -/
 def unravel (s : Str) : Option (List Nat) := (parseElems s).map denote
@@ -234,8 +283,8 @@ def denote2d (items : List Item) : List (Nat × Option (List Nat)) :=
 /-- `gallia.utils.unravel_2d` -/
 def unravel2d (s : Str) : Option (List (Nat × Option (List Nat))) := (parseItems s).map denote2d
 
-/-- `str.split()` on ASCII whitespace -/
-def wordsWs (s : Str) : List Str := (splitOnP isWs s).filter (· ≠ [])
+/-- `str.split()` -/
+def wordsWs (s : Str) : List Str := (splitOnP isSpaceStr s).filter (· ≠ [])
 
 /-- `command.config._process_ranges` on a string: whitespace separates elements as well -/
 def processRanges (s : Str) : Option (List Nat) := unravel (joinC ',' (wordsWs s))
@@ -324,9 +373,10 @@ def splitHostPort (s : Str) (dflt : Option Nat := none) : Option (Str × Option 
 
 abbrev Args := List (Str × Str)
 
-def queryOf (args : Args) : Str := joinC '&' (args.map fun kv => kv.1 ++ '=' :: kv.2)
+/-- `urlencode(args)`: `quote_plus(k) + '=' + quote_plus(v)` joined by `&` -/
+def queryOf (args : Args) : Str := joinC '&' (args.map fun kv => quotePlus kv.1 ++ '=' :: quotePlus kv.2)
 
-/-- `TargetURI.from_parts` (`urlunparse` with empty path; `urlencode` is the identity on the parameter alphabet) -/
+/-- `TargetURI.from_parts` (`urlunparse` with empty path) -/
 def fromParts (scheme host : Str) (port : Option Nat) (args : Args) : Str :=
   scheme ++ [':', '/', '/'] ++ netlocOf host port ++ (if args = [] then [] else '?' :: queryOf args)
 
@@ -335,12 +385,21 @@ def splitFirst (c : Char) (s : Str) : Str × Option Str :=
   | [] => (s, none)
   | _ :: r => (s.takeWhile (· ≠ c), some r)
 
-/-- `parse_qs` + `qs_flat`: `k=v` pairs, blank values dropped, the first occurrence of a key wins -/
-def qsFlat (q : Str) : Args :=
-  (splitOnC '&' q).foldr (fun piece acc =>
+/-- `parse_qsl(query)` (`keep_blank_values=False`, `strict_parsing=False`): pieces between `&`; a piece without `=` or
+    with nothing after its first `=` is dropped; name and value are unquoted -/
+def qsPairs (q : Str) : Args :=
+  (splitOnC '&' q).filterMap fun piece =>
     match splitFirst '=' piece with
-    | (k, some v) => if v = [] then acc else (k, v) :: acc.filter (·.1 ≠ k)
-    | (_, none) => acc) []
+    | (k, some v) => if v = [] then none else some (unquotePlus k, unquotePlus v)
+    | (_, none) => none
+
+/-- `parse_qs` collects the values per name in order of first appearance; `qs_flat` keeps the first value of each -/
+def firstWins : Args → Args
+  | [] => []
+  | kv :: r => kv :: (firstWins r).filter (·.1 ≠ kv.1)
+
+/-- `TargetURI.qs_flat` of a query -/
+def qsFlat (q : Str) : Args := firstWins (qsPairs q)
 
 def isAlphaCh (c : Char) : Bool := isLowerCh c || isUpperCh c
 
@@ -351,6 +410,7 @@ structure Uri where
   scheme : Str
   host : Option Str            -- `hostname` (`None` when empty)
   port : Option (Option Nat)   -- outer `none`: `.port` raises
+  path : Str                   -- `.path` (not unquoted)
   args : Args
   deriving DecidableEq, Repr
 
@@ -361,6 +421,9 @@ def splitNetloc (rest0 : Str) : Str × Str :=
   match rest0 with
   | '/' :: '/' :: rest => (rest.takeWhile (fun c => !isDelim c), rest.dropWhile (fun c => !isDelim c))
   | _ => ([], rest0)
+
+/-- the path: what follows the network location up to the first `?` or `#` -/
+def pathPart (after : Str) : Str := after.takeWhile (fun c => c ≠ '?' ∧ c ≠ '#')
 
 /-- the query between the first `?` and a `#` -/
 def queryPart (after : Str) : Str :=
@@ -380,14 +443,19 @@ def hostPortOf (netloc : Str) : Option Str × Option (Option Nat) :=
         | (h, some p) => (lower h, parsePort p))
   (if host = [] then none else some host, port)
 
-/-- `TargetURI(raw)`: scheme, `hostname`, `port`, `qs_flat` (no userinfo, no path parameters in the model) -/
-def parseUri (s : Str) : Option Uri :=
+/-- `urlsplit` first strips leading C0 control characters and spaces and removes every tab, CR and LF -/
+def cleanUrl (s : Str) : Str :=
+  (s.dropWhile fun c => c.toNat ≤ 32).filter fun c => c ≠ '\t' ∧ c ≠ '\r' ∧ c ≠ '\n'
+
+/-- `TargetURI(raw)`: scheme, `hostname`, `port`, `path`, `qs_flat` (no userinfo in the model) -/
+def parseUri (s0 : Str) : Option Uri :=
+  let s := cleanUrl s0
   match splitFirst ':' s with
   | (sch, some rest0) =>
     if sch = [] ∨ !(sch.all isSchemeChar) ∨ !(sch.head?.any isAlphaCh) then none else
     let nl := splitNetloc rest0
     let hp := hostPortOf nl.1
-    some ⟨lower sch, hp.1, hp.2, qsFlat (queryPart nl.2)⟩
+    some ⟨lower sch, hp.1, hp.2, pathPart nl.2, qsFlat (queryPart nl.2)⟩
   | _ => none
 
 /-! ## transport settings built from `qs_flat` -/
@@ -423,10 +491,11 @@ def fldWith {α} (f : Str → Option α) (k : Str) (args : Args) : Fld α :=
     | some z => .ok z
     | none => .bad
 
-/-- plain pydantic `int` field, tied only on `[+-]?[0-9]+` -/
-def plainInt (s : Str) : Option Int :=
-  let (neg, m) := splitSign s
-  if m ≠ [] ∧ m.all isDigit then some (applySign neg (decVal m)) else none
+/-- `str.strip()`-like removal of the characters `isWsInt` at both ends (what pydantic-core's `trim()` removes) -/
+def trimInt (l : Str) : Str := ((l.dropWhile isWsInt).reverse.dropWhile isWsInt).reverse
+
+/-- plain pydantic `int` field given a string (lax mode): C18's `parseLaxInt` after trimming Unicode white space -/
+def plainInt (s : Str) : Option Int := Gallia.Config.parseLaxInt (trimInt s)
 
 /-- pydantic `bool` from a string -/
 def boolVal (s : Str) : Option Bool :=
